@@ -6,7 +6,7 @@ for d in seeded/${1:-S}*; do
   p=$(python3 -c "import json;print(json.load(open('$d/meta.json'))['property'])")
   cd /repo && git apply --check /verif/$d/patch.diff 2>/dev/null || { echo "$d: patch does not apply"; cd /verif; continue; }
   git apply /verif/$d/patch.diff; cd /verif
-  out=$(./check $p --tier quick 2>&1); rc=$?
+  out=$(VERIF_SEED=${VERIF_SEED:-0} ./check $p --tier quick 2>&1); rc=$?
   first=$(echo "$out" | grep '^VIOLATION' | head -1)
   if [ -z "$first" ]; then res="MISSED";
   elif echo "$first" | grep -q no-failing-input-found; then res="reported, no failing input";
